@@ -8,6 +8,7 @@ import DtailModel.Generated.Code
 import DtailModel.Lemmas.GoRT
 import DtailModel.Model.Aggregate
 import DtailModel.Model.AggregateOps
+set_option autoImplicit false
 namespace Dtail.GenAgg
 open Dtail Dtail.Go Dtail.Gen.Mapr
 
